@@ -314,3 +314,13 @@ def keystream(self, l):
 '''
 RC4_ENC = 'def enc(self, m):\n    return pack(Poly(m) ^ self.keystream(len(m)))\n'
 RC4_DEC = 'def dec(self, c):\n    return self.enc(c)\n'
+
+
+MODE_ENC = 'def enc(self, M):\n    raise NotImplementedError\n'
+MODE_DEC = 'def dec(self, C):\n    raise NotImplementedError\n'
+CHAIN_CALL = 'def __call__(self, M):\n    raise NotImplementedError\n'
+CHAIN_ITERBLOCKS = '''
+def iterblocks(self, M, **kargs):
+    for b in self.pad.iterblocks(M, **kargs):
+        yield b
+'''
